@@ -67,6 +67,9 @@ pub struct TrakSpec {
     pub entries: Vec<u64>,
     pub junk: u32, // bitmask: which levels get unknown siblings (before/after)
     pub enc: [Enc; 5], // header encodings of trak, mdia, minf, stbl, co
+    /// a rule of the track structure broken by duplication: 0 none, 1 a second table of the same kind (other entries),
+    /// 2 a second stbl, 3 a second minf, 4 a second mdia, 5 both an stco and a co64
+    pub dup: u8,
 }
 
 pub fn co_payload(co64: bool, entries: &[u64]) -> Vec<u8> {
@@ -100,10 +103,26 @@ fn wrap(rng: &mut Rng, name: &[u8; 4], inner: Vec<u8>, junk_before: bool, junk_a
 /// payload of a trak box
 pub fn trak_payload(rng: &mut Rng, t: &TrakSpec) -> Vec<u8> {
     let co = co_payload(t.co64, &t.entries);
-    let (stbl, _) = wrap(rng, if t.co64 { b"co64" } else { b"stco" }, co, t.junk & 1 != 0, t.junk & 2 != 0, t.enc[4], true);
-    let (minf, _) = wrap(rng, b"stbl", stbl, t.junk & 4 != 0, t.junk & 8 != 0, t.enc[3], true);
-    let (mdia, _) = wrap(rng, b"minf", minf, t.junk & 16 != 0, t.junk & 32 != 0, t.enc[2], true);
-    let (trak, _) = wrap(rng, b"mdia", mdia, t.junk & 64 != 0, t.junk & 128 != 0, t.enc[1], true);
+    let no_eof = |e: Enc, dup: bool| if dup && e == Enc::Eof { Enc::S32 } else { e };
+    let (mut stbl, _) = wrap(rng, if t.co64 { b"co64" } else { b"stco" }, co, t.junk & 1 != 0, t.junk & 2 != 0, no_eof(t.enc[4], t.dup == 1 || t.dup == 5), true);
+    if t.dup == 1 || t.dup == 5 {
+        // the extra table holds other values, so a rewrite that reaches only one of the two is visible
+        let other: Vec<u64> = t.entries.iter().rev().map(|e| e ^ 4).collect();
+        let co64 = if t.dup == 5 { !t.co64 } else { t.co64 };
+        stbl.extend(bx(if co64 { b"co64" } else { b"stco" }, &co_payload(co64, &other), Enc::S32));
+    }
+    let (mut minf, _) = wrap(rng, b"stbl", stbl.clone(), t.junk & 4 != 0, t.junk & 8 != 0, no_eof(t.enc[3], t.dup == 2), true);
+    if t.dup == 2 {
+        minf.extend(bx(b"stbl", &stbl, Enc::S32));
+    }
+    let (mut mdia, _) = wrap(rng, b"minf", minf.clone(), t.junk & 16 != 0, t.junk & 32 != 0, no_eof(t.enc[2], t.dup == 3), true);
+    if t.dup == 3 {
+        mdia.extend(bx(b"minf", &minf, Enc::S32));
+    }
+    let (mut trak, _) = wrap(rng, b"mdia", mdia.clone(), t.junk & 64 != 0, t.junk & 128 != 0, no_eof(t.enc[1], t.dup == 4), true);
+    if t.dup == 4 {
+        trak.extend(bx(b"mdia", &mdia, Enc::S32));
+    }
     trak
 }
 
@@ -137,7 +156,9 @@ pub fn rand_trak(rng: &mut Rng, n_entries: usize, rich: bool) -> TrakSpec {
             };
         }
     }
-    TrakSpec { co64, entries, junk: if rich { rng.next() as u32 & 0xff } else { 0 }, enc }
+    let junk = if rich { rng.next() as u32 & 0xff } else { 0 };
+    let dup = if rng.chance(1, 24) { 1 + rng.below(5) as u8 } else { 0 };
+    TrakSpec { co64, entries, junk, enc, dup }
 }
 
 pub fn ftyp_payload(rng: &mut Rng, isom: bool, n_brands: usize, tail: usize) -> Vec<u8> {
@@ -330,6 +351,23 @@ pub fn remux(rng: &mut Rng, big_gaps: bool, rich: bool) -> Remux {
     let cfg = Cfg { max: if rng.chance(1, 10) { moov_len + rng.below(3) - 1 } else { 1 << 30 }, cum: None };
     desc.push_str(&format!(" shift={shift} moov={moov_enc:?}"));
     Remux { s: build(&items), cfg, desc }
+}
+
+/// moov first, then media that is only ever skipped: ftyp, moov, mdat(`len` bytes) [free] - cut short by `cut` bytes, so
+/// the input ends inside a box whose payload no one reads (what tells a short file from a complete one is then only the
+/// position after the skip)
+pub fn cut_in_skipped_tail(rng: &mut Rng, len: u64, cut: u64) -> Sparse {
+    let ftyp = Item::Payload(b"ftyp", Enc::S32, ftyp_payload(rng, true, 1, 0));
+    let t = rand_trak(rng, 2, false);
+    let t = TrakSpec { dup: 0, ..t };
+    let moov = Item::Payload(b"moov", Enc::S32, moov_payload(rng, &[t], false));
+    let mut items = vec![ftyp, moov, Item::Sized(b"mdat", if rng.chance(1, 4) { Enc::S64 } else { Enc::S32 }, len)];
+    if rng.chance(1, 3) {
+        items.push(Item::Sized(if rng.chance(1, 2) { b"free" } else { b"skip" }, Enc::S32, rng.below(90)));
+    }
+    let s = build(&items);
+    let c = cut.min(s.len);
+    s.truncate(s.len - c)
 }
 
 /// simple valid file used as a base for mutation: ftyp, mdat, moov (or moov first when `noop`)
